@@ -660,6 +660,46 @@ def _nat_stub(params, model):
     return {"ok": None, "detail": "no concrete replay registered"}
 
 
+# ---------------------------------------------------------------------------- undelivered messages held (eager mode)
+def sym_held(cap):
+    """Eager mailbox of capacity `cap`, one subscriber, one thread: send until the mailbox refuses, let the subscriber
+    take d messages (d chosen by the solver), send again until it refuses.  Undelivered = accepted - handed to the
+    subscriber; the property bounds it by the capacity."""
+    import strax
+
+    d = core.concretize(fresh_int("d", 1, cap))
+    mb = strax.Mailbox(name="mb", max_messages=cap, timeout=0.02, lazy=False)
+    sub = mb.subscribe()
+    accepted = 0
+
+    def fill():
+        nonlocal accepted
+        while True:
+            try:
+                mb.send(("payload", accepted))
+            except strax.MailboxFullTimeout:
+                return
+            accepted += 1
+            if accepted > 4 * cap + 4:
+                return
+
+    fill()
+    prove(accepted == cap, f"held:a fresh mailbox of capacity {cap} accepted {accepted} messages")
+    delivered = 0
+    for _ in range(d):
+        next(sub)
+        delivered += 1
+    fill()
+    prove(accepted - delivered <= cap, f"held:capacity {cap}: {accepted} accepted, {delivered} delivered -> "
+                                       f"{accepted - delivered} undelivered messages held")
+    return [accepted, delivered]
+
+
+def nat_held(params, model):
+    label = core.concrete_run(lambda: sym_held(**params), model)
+    return {"ok": label is None, "detail": label or "never more than the capacity", "label": label}
+
+
 # ---------------------------------------------------------------------------- completeness of the rely invariant
 def sym_inv_reach(nsubs, cap, lazy, numbering="default", nreal=3, order=None):
     """Soundness guard for every 'from any invariant state' obligation above: each state that real sender / reader
@@ -695,6 +735,8 @@ def _g_inv(tier):
 
 
 OBLIGATIONS = [
+    Ob("held", sym_held, lambda tier: [dict(cap=c) for c in (1, 2, 4)], nat_held, setup=mbox.setup, witnesses=1,
+       doc="eager mode: undelivered messages held (queue + the batch a reader has taken but not handed over) <= capacity"),
     Ob("inv_reach", sym_inv_reach, _g_inv, nat_inv_reach, setup=mbox.setup, witnesses=0,
        doc="every state reached by real threads (all schedules, small runs) satisfies the rely invariant"),
     Ob("send", sym_send, _g_send, mbox.nat_rg(sym_send), setup=mbox.setup, witnesses=1,
